@@ -19,6 +19,8 @@ S5  inside a loop over the positions 0..size()-1 of a sparse vector, the vector 
 S6  an else-if chain whose two conditions are lower/upper (or sign) mirror images of each other has mirror-image arms: a token that is
     identical in both arms where its mirror image is expected is reported (table MIRROR_ASYMMETRIC lists the chains that are
     asymmetric for a reason)
+S12 mirror switch arms: an arm labelled L whose body names the lower/upper mirror image of L has a sibling arm for the image that names L back
+    (written after the seeded change C04-5, which deleted one of two swapping arms, was missed)
 """
 import os
 import re
@@ -148,6 +150,8 @@ FAMILIES = [
 KIND_FAMILIES = [
     [('row', 'col'), ('Row', 'Col'), ('rows', 'cols'), ('Rows', 'Cols'), ('ROW', 'COL'), ('ROWS', 'COLS'), ('R', 'C'), ('r', 'c')],
     [('ROW', 'COLUMN'), ('row', 'col'), ('Row', 'Col'), ('rows', 'cols'), ('Rows', 'Cols')],
+    # primal ray of a column <-> Farkas proof of a row (computePrimalray4Col / computeDualfarkas4Row and vice versa)
+    [('Primalray', 'Dualfarkas'), ('primal', 'dual'), ('Ray', 'Farkas'), ('Col', 'Row'), ('col', 'row')],
 ]
 MIRS = []
 for _fam in FAMILIES:
@@ -417,9 +421,10 @@ TEXT = {
     'S6': 'an else-if chain (or two consecutive ifs) with lower/upper (or sign) mirror-image conditions has mirror-image arms',
     'S8': 'when one arm of a ?: on the optimisation sense is a negation, it negates exactly the other arm (`min ? e : -e`)',
     'S9': 'a two-parameter comparator whose parameters are interchangeable (ch1/ch2, a/b, x/y) applies the same expression to both',
+    'S12': 'a switch arm whose label has a lower/upper mirror image and whose body names that image (ON_LOWER -> ON_UPPER) has a sibling arm for the image that names the label back',
     'S7': 'two member functions whose names are lower/upper (lhs/rhs, min/max, ...) mirror images and whose bodies have the same shape are mirror images',
 }
-FLOORS = {'S11': 500, 'S10': 800, 'S3': 450, 'S1': 350, 'S2': 60, 'S4': 260, 'S5': 150, 'S6': 45, 'S7': 90, 'S8': 10, 'S9': 4}
+FLOORS = {'S11': 500, 'S10': 800, 'S3': 450, 'S1': 350, 'S2': 60, 'S4': 260, 'S5': 150, 'S6': 45, 'S7': 90, 'S8': 10, 'S9': 4, 'S12': 12}
 ROWB = re.compile(r'\b(nRows|numRows|numRowsReal|numRowsRational|numRowsT)\(\)')
 COLB = re.compile(r'\b(nCols|numCols|numColsReal|numColsRational|numColsT)\(\)')
 ROWGET = set('lhs rhs rowVector rowType maxRowObj rowObj lhsReal rhsReal lhsRational rhsRational rowVectorReal rowVectorRational rowVectorRealInternal rId changeLhs changeRhs '
@@ -519,6 +524,41 @@ def _scan(fb):
                 return
             res[rule].append((f, key(base), '%s:%d' % (f.file, node.l), ok, detail))
 
+        # ---- S12: mirror switch arms.  An arm labelled L whose statements name the mirror image L' of L (and not L) swaps sides; the switch then has an arm of
+        # its own for L' that names L.  Functions whose own name is one-sided (changeLowerStatus, ...) are asymmetric by construction: their mirror image is the
+        # sibling function (S7).
+        if not any(side_changed(f.short or '', im) for im in images(f.short or '')):
+            from engine import case_arm_nodes
+            for sw in f.nodes:
+                if sw.k != 'SwitchStmt':
+                    continue
+                labels = {}
+                for cs in sw.walk():
+                    if cs.k == 'CaseStmt' and cs.kids:
+                        anc = [a for a in f.ancestors(cs) if a.k == 'SwitchStmt']
+                        if anc and anc[0].i == sw.i:
+                            labels[render(strip(cs.kids[0])).split('::')[-1]] = cs
+
+                def armnames(cs):
+                    arm = case_arm_nodes(f, cs)
+                    labs = set(y.i for y in cs.kids[0].walk())
+                    for x in arm:
+                        if x.k == 'CaseStmt' and x.kids:
+                            labs |= set(y.i for y in x.kids[0].walk())
+                    return set(x.short for x in arm if x.k == 'DeclRefExpr' and x.dk == 'enum' and x.i not in labs)
+                for L, cs in sorted(labels.items()):
+                    n1 = armnames(cs)
+                    for L2 in sorted(images(L) - {L}):
+                        if not side_changed(L, L2) or L2 not in n1 or L in n1:
+                            continue
+                        if L2 not in labels:
+                            put('S12', 'case %s' % L, cs, False, 'the arm `case %s` maps to %s, but the switch has no arm for %s: the mirror case falls to the default' % (L, L2, L2), 'S12')
+                            continue
+                        n2 = armnames(labels[L2])
+                        ok12 = L in n2 and L2 not in n2
+                        put('S12', 'case %s' % L, cs, ok12, 'case %s names %s' % (L2, L) if ok12 else
+                            'the arm `case %s` (line %d) maps to %s, but the arm `case %s` (line %d) does not map back to %s (it names %s): one side is swapped, the other is not' %
+                            (L, cs.l, L2, L2, labels[L2].l, L, sorted(n2)[:4]), 'S12')
         # ---- S9: symmetric comparators
         if len(f.params) == 2 and f.params[0][1] == f.params[1][1] and f.params[0][0] and f.params[1][0] \
                 and len(f.params[0][0]) == len(f.params[1][0]) and f.params[0][0][:-1] == f.params[1][0][:-1] and f.params[0][0] != f.params[1][0]:
@@ -621,7 +661,7 @@ def _scan(fb):
                     ini = render(init)
                     start = re.sub(r'^.*?= ', '', ini.strip().rstrip(';'))
                     used = any(x.k == 'DeclRefExpr' and x.n == v for x in body.walk())
-                    if '--' in render(inc) and v in render(inc) and not re.fullmatch(r'\(?\d+\)?', start) and used:
+                    if ('--' in render(inc) or re.search(r'%s -= ' % re.escape(v), render(inc))) and v in render(inc) and not re.fullmatch(r'\(?\d+\)?', start) and used:
                         put('S4', 'loop(%s %s 0)' % (v, c.o), n, c.o == '>=', 'runs down to 0' if c.o == '>=' else
                             'the loop counts %s down from %s while %s > 0 and uses %s in its body: the value 0 (the first row / column / entry) is never visited; every other '
                             'descending loop of the code base runs while %s >= 0' % (v, start[:40], v, v, v), 'S4')
@@ -760,7 +800,7 @@ def _scan(fb):
                               'bodies are mirror images' if not why else ('listed as asymmetric: ' + acc) if acc else
                               '%s (line %d) and %s (line %d) have the same shape, but %s' % (f.short, f.line, gname, g.line, why[0])))
     _reference(comparable, nc)
-    need = {'S1', 'S10', 'S11', 'S2', 'S3', 'S4', 'S5', 'S6', 'S7', 'S8', 'S9'}
+    need = {'S1', 'S10', 'S11', 'S12', 'S2', 'S3', 'S4', 'S5', 'S6', 'S7', 'S8', 'S9'}
     if not need <= ctl:
         raise AnalysisBroken('shape rules: positive controls did not fire: %s' % sorted(need - ctl))
     for r, fl in FLOORS.items():
